@@ -21,7 +21,7 @@ func init() {
 			"Roland checksum rule: (sum of address + payload/size bytes + checksum) mod 128 == 0",
 			"ids and addresses are 7-bit values (sysex data bytes)",
 		},
-		Require: []string{"dataset_values", "request_values", "corruptions_rejected", "checksum_nonzero", "locate_values", "command_values", "held_across_later_build", "reparse_after_modification"},
+		Require: []string{"dataset_values", "request_values", "corruptions_rejected", "checksum_nonzero", "locate_values", "command_values", "held_across_later_build", "reparse_after_modification", "reused_receivers"},
 		Run:     runC18,
 	})
 }
@@ -195,6 +195,10 @@ func runC18(c *mon.Ctx) {
 				continue
 			}
 			var p mmc.GoTo
+			if k%2 == 0 {
+				p.Parse(mmc.GoTo{DeviceID: 99, Hour: 99, Minute: 99, Second: 99, Frame: 99, SubFrame: 99}.SysEx())
+				p.Parse([]byte{0xF0, 0x7F})
+			}
 			if err := p.Parse(bt); err != nil || p != g {
 				c.Violation("goto-parse", fmt.Sprintf("GoTo.Parse(SysEx()) = %+v, %v; built from %+v", p, err, g), fmt.Sprintf("%+v", g), fmt.Sprintf("%+v", g), fmt.Sprintf("%+v %v", p, err))
 			}
@@ -216,6 +220,13 @@ func runC18(c *mon.Ctx) {
 				continue
 			}
 			var p mmc.Message
+			if cmd%3 == 0 {
+				// a long-lived receiver that parsed other (hand-written) messages before: a response and a data command
+				p.Parse([]byte{0xF0, 0x7F, dev, 0x07, 0x01, 0x02, 0x03, 0xF7})
+				p.Parse([]byte{0xF0, 0x7F, dev, 0x06, 0x44, 0x06, 0x01, 1, 2, 3, 4, 5, 0xF7})
+				p.Parse([]byte{0xF0, 0x7F, dev, 0x07, 0xF7})
+				c.Count("reused_receivers", 1)
+			}
 			err := p.Parse(bt)
 			if err != nil || p.DeviceID != dev || p.Command != mmc.Command(cmd) || p.IsResponse || len(p.Data) != 0 {
 				c.Violation("command-parse", fmt.Sprintf("mmc.Message.Parse(% X) = %+v, %v", bt, p, err), []int{int(dev), cmd}, fmt.Sprintf("device %d command %#x", dev, cmd), fmt.Sprintf("%+v %v", p, err))
